@@ -1302,3 +1302,238 @@ Proof.
   split; [exact pw_db_ok|]. split; [cbn; lia|]. split; [|vm_compute; reflexivity].
   intros sel [<-|[<-|[<-|[]]]] Hn; try discriminate Hn. left. reflexivity.
 Qed.
+
+(* ====================================================================================== *)
+(* J. processHints: what the engine sees after step bucketing / the modulo filter         *)
+(* ====================================================================================== *)
+Open Scope list_scope.
+Open Scope Z_scope.
+(* ---------------- range filter ---------------- *)
+Lemma filter_filter_implied {A} (f g : A -> bool) l :
+  (forall x, List.In x l -> f x = true -> g x = true) -> filter f (filter g l) = filter f l.
+Proof.
+  induction l as [|x l IH]; intros H; [reflexivity|]. cbn [filter].
+  destruct (g x) eqn:Hg; cbn [filter].
+  - destruct (f x); rewrite IH by (intros; apply H; [now right|assumption]); reflexivity.
+  - destruct (f x) eqn:Hf; [rewrite (H x (or_introl eq_refl) Hf) in Hg; discriminate|].
+    apply IH. intros; apply H; [now right|assumption].
+Qed.
+
+Lemma range_keep_in_window step range k s :
+  0 <= range < step -> 0 <= fst s -> k * step - range <= fst s <= k * step -> range_keep step range s = true.
+Proof.
+  intros Hr Hnn Hw. unfold range_keep. rewrite Z.rem_mod_nonneg by lia.
+  destruct (Z.eq_dec (fst s) (k * step)) as [He|Hne].
+  - rewrite He, Z.mod_mul by lia. reflexivity.
+  - apply orb_true_iff. right. apply Z.leb_le.
+    assert (Hm : fst s mod step = fst s - (k - 1) * step).
+    { symmetry. apply (Z.mod_unique _ _ (k - 1)); lia. }
+    rewrite Hm. lia.
+Qed.
+
+(* evaluation times on the absolute step grid: every range window keeps all its samples *)
+Theorem range_filter_keeps_windows step range k l :
+  0 <= range < step -> Forall (fun s => 0 <= fst s) l ->
+  window range (k * step) (range_filter step range l) = window range (k * step) l.
+Proof.
+  intros Hr Hnn. unfold window, range_filter. apply filter_filter_implied.
+  intros s Hs Hw. rewrite Forall_forall in Hnn. apply andb_prop in Hw. destruct Hw as [H1 H2].
+  apply Z.leb_le in H1. apply Z.leb_le in H2. apply (range_keep_in_window step range k); [assumption|now apply Hnn|lia].
+Qed.
+
+(* ---------------- step buckets ---------------- *)
+Definition asc (l : list sample) : Prop := StronglySorted (fun a b => fst a <= fst b) l.
+
+Lemma bucket_ge start step ts : 0 < step -> start <= ts -> ts <= bucket_of start step ts.
+Proof.
+  intros Hs Hts. unfold bucket_of. rewrite Z.quot_div_nonneg by lia.
+  set (a := ts - start + step - 1).
+  assert (H : a = step * (a / step) + a mod step) by (apply Z.div_mod; lia).
+  assert (Hm := Z.mod_pos_bound a step Hs).
+  replace (a / step * step) with (step * (a / step)) by ring. unfold a in *. lia.
+Qed.
+Lemma bucket_grid start step ts j : 0 < step -> start <= ts ->
+  (ts <= start + j * step <-> bucket_of start step ts <= start + j * step).
+Proof.
+  intros Hs Hts. split.
+  - intros H. unfold bucket_of. rewrite Z.quot_div_nonneg by lia.
+    assert (Hd : (ts - start + step - 1) / step <= j).
+    { assert (Hlt : (ts - start + step - 1) / step < j + 1); [|lia].
+      apply Z.div_lt_upper_bound; [assumption|]. replace (step * (j + 1)) with (j * step + step) by ring. lia. }
+    assert (Hmul : (ts - start + step - 1) / step * step <= j * step) by (apply Z.mul_le_mono_nonneg_r; lia).
+    lia.
+  - intros H. assert (Hb := bucket_ge start step ts Hs Hts). lia.
+Qed.
+
+Definition last_opt {A} (l : list A) : option A := match rev l with x :: _ => Some x | [] => None end.
+Lemma last_opt_cons {A} (x : A) l : l <> [] -> last_opt (x :: l) = last_opt l.
+Proof.
+  intros Hne. unfold last_opt. cbn [rev]. destruct (rev l) eqn:E.
+  - exfalso. apply Hne. apply (f_equal (@rev A)) in E. rewrite rev_involutive in E; exact E.
+  - reflexivity.
+Qed.
+Lemma last_opt_app {A} (l1 l2 : list A) : l2 <> [] -> last_opt (l1 ++ l2) = last_opt l2.
+Proof.
+  intros Hne. unfold last_opt. rewrite rev_app_distr. destruct (rev l2) eqn:E; [|reflexivity].
+  exfalso. apply Hne. apply (f_equal (@rev A)) in E. rewrite rev_involutive in E; exact E.
+Qed.
+
+Lemma latest_le_filter T l : latest_le T l = last_opt (filter (fun s => fst s <=? T) l).
+Proof.
+  unfold latest_le.
+  assert (H : forall acc, fold_left (fun acc s => if fst s <=? T then Some s else acc) l acc =
+                          match last_opt (filter (fun s => fst s <=? T) l) with Some x => Some x | None => acc end).
+  { induction l as [|s l IH]; intros acc; [reflexivity|]. cbn [fold_left filter].
+    destruct (fst s <=? T) eqn:E; rewrite IH.
+    - destruct (filter (fun s0 => fst s0 <=? T) l) as [|y r] eqn:Ef; [reflexivity|].
+      rewrite (@last_opt_cons (Z * Z)%type s (y :: r)) by discriminate. destruct (last_opt (y :: r)) eqn:El; [reflexivity|].
+      exfalso. unfold last_opt in El. destruct (rev (y :: r)) eqn:Er; [|discriminate].
+      apply (f_equal (@rev sample)) in Er. rewrite rev_involutive in Er. discriminate.
+    - reflexivity. }
+  rewrite H. destruct (last_opt _); reflexivity.
+Qed.
+
+Lemma bucket_series_head start step s r : exists v r', bucket_series start step (s :: r) = (bucket_of start step (fst s), v) :: r'.
+Proof.
+  cbn [bucket_series]. destruct (bucket_series start step r) as [|s' r'] eqn:E; [eexists _, _; reflexivity|].
+  destruct (Z.eqb_spec (fst s') (bucket_of start step (fst s))) as [He|Hne].
+  - exists (snd s'), r'. rewrite <- He. now destruct s'.
+  - eexists _, _. reflexivity.
+Qed.
+Lemma bucket_series_nonempty start step l : l <> [] -> bucket_series start step l <> [].
+Proof. destruct l as [|s r]; [congruence|]. intros _. destruct (bucket_series_head start step s r) as [v [r' ->]]. discriminate. Qed.
+
+Lemma bucket_series_stamps start step l x : List.In x (bucket_series start step l) ->
+  exists s, List.In s l /\ fst x = bucket_of start step (fst s).
+Proof.
+  revert x. induction l as [|s r IH]; intros x Hx; [contradiction|]. cbn [bucket_series] in Hx.
+  destruct (bucket_series start step r) as [|s' r'] eqn:E.
+  - destruct Hx as [<-|[]]. exists s. split; [now left|reflexivity].
+  - destruct (Z.eqb (fst s') (bucket_of start step (fst s))).
+    + destruct (IH x Hx) as [y [Hy He]]. exists y. split; [now right|assumption].
+    + destruct Hx as [<-|Hx]; [exists s; split; [now left|reflexivity]|].
+      destruct (IH x Hx) as [y [Hy He]]. exists y. split; [now right|assumption].
+Qed.
+
+(* the last bucket carries the value of the last sample *)
+Lemma bucket_series_last start step l :
+  last_opt (bucket_series start step l) = option_map (fun s => (bucket_of start step (fst s), snd s)) (last_opt l).
+Proof.
+  induction l as [|s r IH]; [reflexivity|]. destruct r as [|s2 r2]; [reflexivity|].
+  rewrite (@last_opt_cons sample s (s2 :: r2)) by discriminate. rewrite <- IH.
+  remember (s2 :: r2) as r eqn:Er. cbn [bucket_series].
+  destruct (bucket_series start step r) as [|s' r'] eqn:E.
+  - exfalso. apply (bucket_series_nonempty start step r); [subst; discriminate|assumption].
+  - destruct (Z.eqb (fst s') (bucket_of start step (fst s))); [reflexivity|].
+    rewrite (@last_opt_cons sample _ (s' :: r')) by discriminate. reflexivity.
+Qed.
+
+(* a prefix whose buckets are all below the buckets of the rest is bucketed on its own *)
+Lemma bucket_series_app start step T l1 l2 :
+  Forall (fun s => bucket_of start step (fst s) <= T) l1 -> Forall (fun s => T < bucket_of start step (fst s)) l2 ->
+  bucket_series start step (l1 ++ l2) = bucket_series start step l1 ++ bucket_series start step l2.
+Proof.
+  intros H1 H2. induction l1 as [|s r IH]; [reflexivity|].
+  inversion H1 as [|? ? Hs Hr]; subst. specialize (IH Hr).
+  destruct r as [|s2 r2].
+  - cbn [app] in *. destruct l2 as [|t l2']; [reflexivity|].
+    inversion H2 as [|? ? Ht _]; subst.
+    remember (t :: l2') as l2 eqn:El2.
+    assert (E' : exists v r', bucket_series start step l2 = (bucket_of start step (fst t), v) :: r') by (subst l2; apply bucket_series_head).
+    destruct E' as [v [r' E]]. cbn [bucket_series]. rewrite E. cbn [fst app].
+    replace (bucket_of start step (fst t) =? bucket_of start step (fst s)) with false by (symmetry; apply Z.eqb_neq; lia).
+    reflexivity.
+  - remember (s2 :: r2) as r eqn:Er.
+    assert (E' : exists v r', bucket_series start step r = (bucket_of start step (fst s2), v) :: r') by (subst r; apply bucket_series_head).
+    destruct E' as [v [r' E]].
+    change ((s :: r) ++ l2) with (s :: (r ++ l2)). cbn [bucket_series]. rewrite IH, E. cbn [app fst].
+    destruct (bucket_of start step (fst s2) =? bucket_of start step (fst s)); reflexivity.
+Qed.
+
+Lemma asc_split T l : asc l ->
+  l = filter (fun s => fst s <=? T) l ++ filter (fun s => negb (fst s <=? T)) l.
+Proof.
+  induction l as [|s r IH]; intros Ha; [reflexivity|]. inversion Ha as [|? ? Hr Hall]; subst. cbn [filter].
+  destruct (fst s <=? T) eqn:E; cbn [negb app].
+  - f_equal. now apply IH.
+  - assert (Hnone : filter (fun s0 => fst s0 <=? T) r = []).
+    { apply Z.leb_gt in E. rewrite Forall_forall in Hall. clear IH Ha Hr.
+      induction r as [|y r IH]; [reflexivity|]. cbn [filter].
+      assert (fst s <= fst y) by (apply Hall; now left).
+      replace (fst y <=? T) with false by (symmetry; apply Z.leb_gt; lia). apply IH. intros; apply Hall; now right. }
+    rewrite Hnone. cbn [app]. f_equal.
+    assert (Hall' : filter (fun s0 => negb (fst s0 <=? T)) r = r).
+    { apply Z.leb_gt in E. rewrite Forall_forall in Hall. clear IH Ha Hr Hnone.
+      induction r as [|y r IH]; [reflexivity|]. cbn [filter].
+      assert (fst s <= fst y) by (apply Hall; now left).
+      replace (fst y <=? T) with false by (symmetry; apply Z.leb_gt; lia). cbn [negb]. f_equal. apply IH. intros; apply Hall; now right. }
+    now rewrite Hall'.
+Qed.
+
+Lemma filter_all {A} (f : A -> bool) l : (forall x, List.In x l -> f x = true) -> filter f l = l.
+Proof. induction l as [|x l IH]; intros H; [reflexivity|]. cbn [filter]. rewrite (H x (or_introl eq_refl)). f_equal. apply IH. intros; apply H; now right. Qed.
+Lemma filter_none {A} (f : A -> bool) l : (forall x, List.In x l -> f x = false) -> filter f l = [].
+Proof. induction l as [|x l IH]; intros H; [reflexivity|]. cbn [filter]. rewrite (H x (or_introl eq_refl)). apply IH. intros; apply H; now right. Qed.
+
+(* At an evaluation time on the bucket grid the bucketed series shows the latest raw sample, re-stamped with its bucket end *)
+Lemma step_bucket_latest_full start step j l :
+  0 < step -> asc l -> Forall (fun s => start <= fst s) l ->
+  latest_le (start + j * step) (bucket_series start step l) =
+  option_map (fun s => (bucket_of start step (fst s), snd s)) (latest_le (start + j * step) l).
+Proof.
+  intros Hs Ha Hge. set (T := start + j * step).
+  rewrite !latest_le_filter.
+  set (l1 := filter (fun s => fst s <=? T) l). set (l2 := filter (fun s => negb (fst s <=? T)) l).
+  assert (Hl : l = l1 ++ l2) by (apply asc_split; assumption).
+  rewrite Forall_forall in Hge.
+  assert (H1 : Forall (fun s => bucket_of start step (fst s) <= T) l1).
+  { apply Forall_forall. intros s Hin. apply filter_In in Hin. destruct Hin as [Hin Hle]. apply Z.leb_le in Hle.
+    apply (bucket_grid start step (fst s) j Hs (Hge s Hin)). exact Hle. }
+  assert (H2 : Forall (fun s => T < bucket_of start step (fst s)) l2).
+  { apply Forall_forall. intros s Hin. apply filter_In in Hin. destruct Hin as [Hin Hgt]. apply negb_true_iff in Hgt. apply Z.leb_gt in Hgt.
+    assert (Hb := bucket_ge start step (fst s) Hs (Hge s Hin)). lia. }
+  assert (Hf : filter (fun s => fst s <=? T) (bucket_series start step l) = bucket_series start step l1).
+  { rewrite Hl at 1. rewrite (bucket_series_app start step T l1 l2 H1 H2). rewrite filter_app.
+    assert (Ha1 : filter (fun s => fst s <=? T) (bucket_series start step l1) = bucket_series start step l1).
+    { apply filter_all. intros x Hx. destruct (bucket_series_stamps _ _ _ _ Hx) as [s [Hin He]].
+      rewrite He. apply Z.leb_le. rewrite Forall_forall in H1. now apply H1. }
+    assert (Ha2 : filter (fun s => fst s <=? T) (bucket_series start step l2) = []).
+    { apply filter_none. intros x Hx. destruct (bucket_series_stamps _ _ _ _ Hx) as [s [Hin He]].
+      rewrite He. apply Z.leb_gt. rewrite Forall_forall in H2. now apply H2. }
+    transitivity (bucket_series start step l1 ++ []); [|apply app_nil_r]. f_equal; [exact Ha1|exact Ha2]. }
+  rewrite Hf. apply bucket_series_last.
+Qed.
+
+Theorem step_bucket_latest start step j l :
+  0 < step -> asc l -> Forall (fun s => start <= fst s) l ->
+  option_map snd (latest_le (start + j * step) (bucket_series start step l)) = option_map snd (latest_le (start + j * step) l).
+Proof.
+  intros Hs Ha Hge. rewrite (step_bucket_latest_full start step j l Hs Ha Hge).
+  destruct (latest_le (start + j * step) l); reflexivity.
+Qed.
+
+(* what Prometheus shows at a grid time is also shown after bucketing (the re-stamped sample is not older) *)
+Theorem step_bucket_visible start step j L l v :
+  0 < step -> asc l -> Forall (fun s => start <= fst s) l ->
+  visible L (start + j * step) l = Some v -> visible L (start + j * step) (bucket_series start step l) = Some v.
+Proof.
+  intros Hs Ha Hge. unfold visible. rewrite (step_bucket_latest_full start step j l Hs Ha Hge).
+  destruct (latest_le (start + j * step) l) as [s|] eqn:El; [|discriminate]. cbn [option_map fst snd].
+  destruct (start + j * step - L <=? fst s) eqn:E; [|discriminate]. intros Hv.
+  assert (Hin : List.In s l).
+  { rewrite latest_le_filter in El. unfold last_opt in El. destruct (rev (filter (fun s0 => fst s0 <=? start + j * step) l)) as [|x r] eqn:Er; [discriminate|].
+    inversion El; subst x. assert (Hx : List.In s (rev (filter (fun s0 => fst s0 <=? start + j * step) l))) by (rewrite Er; now left).
+    apply in_rev in Hx. apply filter_In in Hx. tauto. }
+  rewrite Forall_forall in Hge. assert (Hb := bucket_ge start step (fst s) Hs (Hge s Hin)).
+  apply Z.leb_le in E. replace (start + j * step - L <=? bucket_of start step (fst s)) with true by (symmetry; apply Z.leb_le; lia).
+  exact Hv.
+Qed.
+
+(* refutations by computation *)
+Example step_bucket_off_grid : visible 300 6 [(5, 1)] = Some 1 /\ visible 300 6 (bucket_series 0 7 [(5, 1)]) = None.
+Proof. split; reflexivity. Qed.
+Example step_bucket_staleness_edge : visible 14 14 [(-3, 1)] = None /\ visible 14 14 (bucket_series (-7) 7 [(-3, 1)]) = Some 1.
+Proof. split; reflexivity. Qed.
+Example range_filter_off_grid : window 5 3 [(1, 9)] = [(1, 9)] /\ window 5 3 (range_filter 10 5 [(1, 9)]) = [].
+Proof. split; reflexivity. Qed.
+
